@@ -110,7 +110,7 @@ def parse_i32(s):
 
 
 class FilterSpec:
-    """`<member> <op> <rhs>` with op in {=, <=}; rhs = %n (parameter n), an integer literal or a 'quoted' string.
+    """`<member> <op> <rhs>` with op in {=, <=}; rhs = %n (parameter n, must exist), an integer literal or a 'quoted' string.
     status: 'ok' | 'invalid' (unknown member, no/unsupported operator, missing or ill-typed operand, unsupported member type)"""
     def __init__(self, ty, expr, params):
         self.status, self.why = "invalid", ""
@@ -132,10 +132,13 @@ class FilterSpec:
                 self.why = "parameter index out of range"
                 return
             operand = params[self.rhs_index]
-        elif kind == "str" and re.fullmatch(r"'[^']*'", rhs):
-            operand = rhs[1:-1]
+        elif re.fullmatch(r"'[^']*'", rhs):
+            operand = rhs[1:-1]          # quoted literal (for an INT32 member its content must be an integer: `'5'` is tolerated)
+        elif parse_i32(rhs) is not None:
+            operand = rhs                # integer literal (compared as text with a string member: tolerated)
         else:
-            operand = rhs
+            self.why = "operand is neither %n, a quoted string nor an integer literal"
+            return
         if kind == "int":
             self.value = parse_i32(operand)
             if self.value is None:
@@ -206,7 +209,8 @@ def gen_expr(r, ty, member, op, rhs):
 
 
 def gen_case(r, ctx=None, force=None):
-    """one scenario; `force` in (None, 'invalid', 'rhs') biases towards the known-finding classes"""
+    """one scenario; `force` in (None, 'invalid', 'rhs'): 'invalid' biases towards filters that must be rejected, 'rhs' towards the
+    operand forms other than %0 (%1, %2, out-of-range %n, literals, garbage)"""
     c = r.below(100)
     ty = "ki" if c < 60 else ("ks" if c < 92 else "kb")
     if force == "invalid" and r.chance(1, 3):
@@ -230,16 +234,32 @@ def gen_case(r, ctx=None, force=None):
         p0 = "" if pivot == "%e" else pivot
     else:
         pivot, p0 = 0, "05"
-    params = [p0]
-    if r.chance(1, 4):
-        params.append(str(r.range(-5, 5)) if kind == "int" else r.choice(STR_POOL[:8]))
-    rhs = "%0"
-    if force == "rhs":
-        second = str(r.choice(INT_EDGE)) if kind == "int" else r.choice(STR_POOL[:8])
-        if r.chance(1, 2):
-            params, rhs = [p0, second], "%1"
-        else:
-            params, rhs = [p0], (second if kind == "int" else f"'{second}'")
+    # the operand: where the value the samples are built around (p0's text) is written
+    def decoy():
+        if kind == "int":
+            return str(max(I32_MIN, min(I32_MAX, pivot + r.choice([-1000, -7, 7, 1000]))))
+        return r.choice([x for x in STR_POOL[:10] if x != pivot and x != "%e"])
+    form = r.below(11) if force == "rhs" else (r.below(4) if r.chance(2, 3) else r.below(8))
+    if kind == "other" or force == "invalid":
+        form = 0
+    params, rhs = [p0], "%0"
+    if form < 4:
+        if r.chance(1, 4):
+            params.append(decoy())
+    elif form in (4, 5):
+        params, rhs = [decoy(), p0], "%1"
+    elif form == 6:
+        params, rhs = [decoy(), decoy(), p0], "%2"
+    elif form == 7:
+        params = [decoy()] if r.chance(1, 2) else []
+        rhs = p0 if kind == "int" else f"'{p0}'"
+    elif form == 8:
+        rhs = "%" + str(len(params) + r.range(0, 5))                       # beyond the list: rejected
+    elif form == 9:
+        rhs = f"'{p0}'" if kind == "int" else r.choice(["5", "-3", "10"])   # tolerated cross forms
+        params = [decoy()]
+    else:
+        rhs = r.choice(["%x", "%", "abc", "'abc", "5x", "%-1", "%1.0", "%0x"])   # no operand at all: rejected
     if force == "invalid":
         k = r.below(5)
         if kind == "other":
